@@ -106,6 +106,31 @@ class Ctx:
         return d
 
 
+class SubCtx:
+    """Runs another property's rule functions under one rule id of this property: a property whose behaviour rests on a
+    component that another property's rules decide (the task queue under every clock) re-states those obligations as its own,
+    so that its check fails on its own when the component is broken."""
+
+    def __init__(self, ctx, rid, text):
+        self._ctx = ctx
+        self._rid = rid
+        ctx.rule(rid, text)
+
+    def rule(self, rid, text):
+        pass
+
+    def ob(self, rule, key, ok, msg, node=None, mod=None, nontrivial=True):
+        if not ok and any(k['rule'] == rule and k['key'] == key for k in _load_json('known_findings.json', {'known': []}).get('known', [])):
+            return False          # a recorded finding of the property the rule belongs to: reported there, not re-stated here
+        return self._ctx.ob(self._rid, f'[{rule}] {key}', ok, msg, node, mod, nontrivial)
+
+    def require(self, cond, rule, reason):
+        return self._ctx.require(cond, self._rid, reason)
+
+    def __getattr__(self, name):
+        return getattr(self._ctx, name)
+
+
 def check_expectations(ctx):
     exp = _load_json('expectations.json', {}).get(ctx.pid, {})
     pr = ctx.per_rule()
